@@ -262,9 +262,9 @@ def proof_step(prop):
 def coqchk_step(prop, res):
     """thorough tier: re-check the compiled theorems (and all they depend on) with the independent checker"""
     mods = ["PV.%s.Props" % prop] + (["PV.%s.Run" % prop] if os.path.exists(os.path.join(COQ, prop, "Run.vo")) else [])
-    cmd = "timeout 2400 coqchk -o -silent -R . PV " + " ".join(mods)
+    cmd = "timeout 7200 coqchk -o -silent -R . PV " + " ".join(mods)
     t0 = time.time()
-    rc, out, _ = sh(cmd, cwd=COQ, timeout=2450)
+    rc, out, _ = sh(cmd, cwd=COQ, timeout=7300)
     res["checker_cmd"] += " ; " + cmd
     summary = out[out.find("CONTEXT SUMMARY"):] if "CONTEXT SUMMARY" in out else ""
     if rc != 0 or not summary:
